@@ -89,6 +89,9 @@ def canon(x):
         return ('exc', t.__name__, tuple([canon(a) for a in x.args]))
     if hasattr(x, '__canon__'):
         return ('o', t.__name__, canon(x.__canon__()))
+    if t.__module__ == 'numpy':
+        if hasattr(x, 'dtype') and hasattr(x, 'tolist'):       # scalars and arrays: type name, dtype and content
+            return ('np', t.__name__, str(x.dtype), canon(x.tolist()))
     if t.__name__ == 'Distogram':
         return ('dist', canon(list(x.bins)), canon(x.min), canon(x.max))
     return ('obj', t.__name__)
